@@ -198,6 +198,46 @@ def check_trailer_write(rep, mod, flags):
             R.check(('mem', ('param', 0, off['total_in'])) in deps, mod.where(f, i), 'gzip trailer word does not depend on stream->total_in (ISIZE)', key='R-TRAILER-ENDIAN|isize')
 
 
+def check_adler_range(rep, mod):
+    """inflate keeps the running Adler-32 as B<<16 | (A-1); finalize_adler32 converts the low half back to A.
+    Both halves of a reference Adler-32 are residues mod 65521, so the low half written here must lie in
+    [0, 65520] for every possible stored value - decided by interval abstract interpretation of the
+    (loop-free) function, with branch refinement."""
+    import intervals
+    R = rep.rule('R-ADLER-RANGE', 'finalize_adler32: for every value of state->crc, the low half written back is a residue modulo 65521 (interval analysis: the value OR-ed under the preserved high half has upper bound <= 65520) '
+                 'and the high half is passed through unchanged', floor=1, unit='functions')
+    f = mod.funcs.get('finalize_adler32')
+    if f is None:
+        raise AnalysisBroken('finalize_adler32 not found')
+    R.instance()
+    off = c19.field_offsets('struct inflate_state', ['crc'])
+    ip = intervals.Interp(mod, f)
+    ip.run()
+    P = irrules.prov(mod, f)
+    stores = [i for i in f.all_insns() if i.op == 'store' and ('param', 0, off['crc']) in P.atoms(i.ops[1])]
+    if not stores:
+        raise AnalysisBroken('finalize_adler32 does not store to state->crc')
+    for st in stores:
+        d = f.defs.get(st.ops[0])
+        lo = hi = None
+        if d is not None and d.op == 'or':
+            for x, y in ((d.ops[0], d.ops[1]), (d.ops[1], d.ops[0])):
+                dx = f.defs.get(x)
+                if dx is not None and dx.op == 'and' and '-65536' in dx.ops:
+                    hi, lo = dx, y
+        if lo is None:
+            raise AnalysisBroken('%s: value stored to state->crc is not of the form (crc & 0xffff0000) | low' % mod.where(f, st))
+        src = [o for o in hi.ops if o != '-65536'][0]
+        R.check(('mem', ('param', 0, off['crc'])) in P.deps(src), mod.where(f, st),
+                'high half (B) is not taken from state->crc', key='R-ADLER-RANGE|hi')
+        iv = ip.values.get(lo)
+        if iv is None and re.match(r'^\d+$', lo):
+            iv = (int(lo), int(lo))
+        R.check(iv is not None and iv[1] <= 65520, mod.where(f, st),
+                'low half (A) of the finalized Adler-32 has range %s; a reference Adler-32 half is < 65521, so for some stored value the exposed checksum is wrong and a valid trailer is rejected' % (iv,),
+                key='R-ADLER-RANGE|lo', sample='finalize_adler32: low half in [%d, %d]' % iv if iv else None)
+
+
 def main(tier):
     rep = Report('C11', tier, level='other')
     rep.undecided = UNDECIDED
@@ -214,4 +254,5 @@ def main(tier):
     check_reach(rep, mod, flags)
     check_cmp(rep, mod)
     check_trailer_write(rep, mod, flags)
+    check_adler_range(rep, mod)
     return rep.finish()
